@@ -1,6 +1,9 @@
 """Which engines decide which property. Shared by ./check and tools/gen_manifest.py."""
 
-ALL_DRIVERS = ["arith", "cross", "crossx", "prim", "primx", "text"]
+ALL_DRIVERS = ["arith", "cross", "crossx", "prim", "primx", "text", "bytes", "wrap"]
+
+# drivers that switch on optional features of the subject (built in a separate cargo invocation)
+FEATURE_GROUP = {"bytes": "serde"}
 
 COMMON_ASSUMPTIONS = [
     "the reference models (exact integer arithmetic on 384-bit integers, IEEE-754 decode/encode by integer manipulation, exact decimal rationals) are correct; they are self-tested against native arithmetic on exhaustive 8-bit domains",
@@ -23,6 +26,29 @@ PRIM_RULE = ("every compiled layout (90 quick: all 8-bit layouts + boundary frac
              "structured mantissas x both signs, incl. zeros, subnormals, largest finite binade, infinities, NaNs; ")
 
 PROPS = {
+    "C18": {
+        "title": "Wrapping<F> computes exactly the modulo-2^n result and never panics on overflow",
+        "stages": [{"driver": "wrap"}],
+        "rule": ("explicit-state exploration of Wrapping<F>: the state is the wrapped value. 8-bit layouts: breadth-first search from 0 over the full transition "
+                 "graph (all 256 states reached; from every state: 21 unary methods, rotations, shifts by 22 amounts x 12 amount types x 6 value/reference/assigning "
+                 "forms, 10 binary operators/methods with every second operand in 6 forms, 5 integer-operand operators with every integer, to_num into 20 "
+                 "targets), plus all operation sequences of length 3 over a 12-operation alphabet from every state (implementation chain vs model chain); wider "
+                 "layouts: the same transitions from the boundary alphabet with second operands from the boundary alphabet; for all layouts Sum/Product over "
+                 "sequences of length 0, 1, 2 and 4, from_num from 21 source types (integers, bool, f32/f64 alphabets, 6 fixed types), FromStr and "
+                 "from_str_{binary,octal,hex}; a transition is one executed call compared with the exact result reduced modulo 2^width (shift amounts modulo the width); "
+                 "panic expected only for a zero divisor and non-finite floats"),
+        "level_text": "explicit-state model checking of Wrapping<F> on the real code: for each 8-bit layout the complete reachable state graph (256 states) with every transition compared against arithmetic modulo 2^8, for wider layouts boundary states and operands; both build profiles",
+    },
+    "C10": {
+        "title": "SCALE encoding and byte views are the plain little-endian bits of the value",
+        "stages": [{"driver": "bytes"}],
+        "rule": ("all 506 layouts x every bit pattern of the 8/16-bit layouts, boundary alphabet plus byte-position patterns otherwise; per value 23..38 "
+                 "sub-checks: encode / encode_to / encoded_size / max_encoded_len against the little-endian bytes of the pattern and the underlying "
+                 "integer's own SCALE encoding, decode round trip, decode with trailing bytes consumes exactly width/8, decode of every proper prefix fails, "
+                 "to_/from_{le,be,ne}_bytes, to_/from_bits, Wrapping::{from_bits,to_bits}, serde_json text of Fixed and Wrapping<Fixed> = {\"bits\":n} and back "
+                 "(map and sequence form); a state is one (layout, bit pattern), a transition one sub-check; non-trivial = pattern not zero"),
+        "assumptions": ["parity-scale-codec's encoding of primitive integers and serde_json are the reference for 'the encoding of the underlying integer' and the {bits} representation", "the subject is built with its optional `serde` feature for this check only"],
+    },
     "C08": {
         "title": "parsing returns the correctly rounded value of the literal, or a precise error",
         "stages": [{"driver": "text"}],
@@ -84,6 +110,8 @@ PROPS = {
 }
 
 DRIVER_KIND = {
+    "wrap": "Rust; explicit-state exploration (BFS over the state graph) of Wrapping<F> for all 506 layouts against arithmetic modulo 2^width",
+    "bytes": "Rust; SCALE / byte / bit / serde views of all 506 layouts against the little-endian bytes of the bit pattern",
     "text": "Rust; parsing and formatting of all 506 layouts against exact rational/digit models; runtime-selected format specs through &dyn fmt traits",
     "cross": "Rust; fixed x fixed conversions and comparisons on 2724 compiled layout pairs (crossx: 5952 further pairs, thorough tier)",
     "crossx": "see cross",
